@@ -165,6 +165,7 @@ pub fn run(ctx: &Ctx, rep: &mut Report) {
     let seed = ctx.seed;
     let soil = seed | 1;
     rep.rule = "state = concrete decoder state (verif_digest) reached by adding a set of shards in some order; transition = add_original_shard/add_recovery_shard of a shard not yet given; all paths of the subset lattice are explored (= every order of every subset); every state with >= k shards is decoded and compared with the originals (restored set exactly the originals not given, empty when all are given); non-trivial = decoded states with an original missing and a recovery shard present; distinct by (engine,codec,k,r,concrete state)".into();
+    rep.assume("verif_digest hashes the fields that exist in the hook commit; state a change adds elsewhere is invisible to merging, which is why orders are additionally enumerated unmerged (all permutations for small k+r, all ordered k- and (k+1)-tuples for skewed configurations)");
     rep.assume("merging two orders is exact: same verif_digest = same configuration, counters, bitmap and working memory, hence same future behaviour of this deterministic code; different digests are never merged");
     let (nmax_fast, nmax_all, pmax) = if ctx.thorough() { (10usize, 7usize, 6usize) } else { (7, 5, 5) };
     let mut specs: Vec<(String, &'static str, usize, usize, bool)> = Vec::new();
@@ -186,6 +187,75 @@ pub fn run(ctx: &Ctx, rep: &mut Report) {
     }
     rep.bound("lattice", J::s(format!("all (k,r) with k+r <= {nmax_fast} on {:?}, k+r <= {nmax_all} on the other engines; codecs high/low/def (rs/def on the default engine)", engines_fast())));
     rep.bound("full_permutations", J::s(format!("every permutation of every sufficient subset, unmerged, for k+r <= {pmax}")));
+    // unmerged: every ORDERED k-tuple and (k+1)-tuple of distinct shards for configurations with few
+    // originals and many recovery shards (and vice versa), where whole lattices are out of reach
+    let tuple_cfgs: Vec<(usize, usize)> = if ctx.thorough() {
+        vec![(1, 9), (2, 9), (3, 8), (3, 9), (2, 12), (3, 12), (4, 8), (9, 1), (9, 2), (8, 3), (2, 17), (3, 17)]
+    } else {
+        vec![(2, 9), (3, 8), (3, 9), (9, 2), (2, 12)]
+    };
+    let mut tuple_jobs: Vec<(String, &'static str, usize, usize)> = Vec::new();
+    for &(k, r) in &tuple_cfgs {
+        for eng in engines_fast() {
+            for codec in ["high", "low", "def"] {
+                tuple_jobs.push((eng.to_string(), codec, k, r));
+            }
+        }
+    }
+    rep.bound("ordered_tuples", J::s(format!("every ordered k-tuple and (k+1)-tuple of distinct shards (k-tuples only when k>4), unmerged, for {tuple_cfgs:?} x {{high,low,def}} x {:?}", engines_fast())));
+    let tuple_results: Vec<(u64, u64, Vec<Violation>)> = par_for(tuple_jobs.len(), 1, |i| {
+        let (eng, codec, k, r) = &tuple_jobs[i];
+        let (k, r) = (*k, *r);
+        let n = k + r;
+        let g = match build_group(eng, codec, k, r, "dense:64", soil, seed) {
+            Ok(g) => g,
+            Err(e) => return (0, 0, vec![Violation { key: format!("encode-{codec}-{eng}-{k}-{r}"), case: Kv::new().with("eng", eng).with("codec", codec).with("k", k).with("r", r).with("data", "dense:64").with("soil", soil).with("seed", seed).with("order", "-").dump(), expected: "encode Ok".into(), observed: e }]),
+        };
+        let mut viols = Vec::new();
+        let (mut decodes, mut nontrivial) = (0u64, 0u64);
+        let lens: Vec<usize> = if k > 4 { vec![k] } else { vec![k, k + 1] };
+        for len in lens {
+            // all ordered tuples of `len` distinct shards out of n
+            let mut idx: Vec<usize> = Vec::with_capacity(len);
+            fn rec(n: usize, len: usize, idx: &mut Vec<usize>, f: &mut dyn FnMut(&[usize])) {
+                if idx.len() == len {
+                    f(idx);
+                    return;
+                }
+                for s in 0..n {
+                    if !idx.contains(&s) {
+                        idx.push(s);
+                        rec(n, len, idx, f);
+                        idx.pop();
+                    }
+                }
+            }
+            rec(n, len, &mut idx, &mut |order: &[usize]| {
+                decodes += 1;
+                if order.iter().any(|s| *s >= k) && order.iter().filter(|s| **s < k).count() < k {
+                    nontrivial += 1;
+                }
+                if viols.len() < 20 {
+                    if let Err((exp, obs)) = check_order(&g, order) {
+                        viols.push(Violation { key: format!("{}-{}-k{}r{}-order{}", g.codec, g.eng, g.k, g.r, fmt_list(order)), case: g.kv().with("order", fmt_list(order)).dump(), expected: exp, observed: obs });
+                    }
+                }
+            });
+        }
+        (decodes, nontrivial, viols)
+    });
+    let mut tuple_decodes = 0u64;
+    for (d, nt, vs) in tuple_results {
+        tuple_decodes += d;
+        rep.traces += d;
+        rep.evaluations += d;
+        rep.transitions += d;
+        rep.states += d;
+        rep.distinct += nt;
+        rep.violations(vs);
+    }
+    rep.extra("ordered_tuple_decodes", J::i(tuple_decodes));
+
     let results: Vec<Result<Out, Violation>> = par_for(specs.len(), 1, |i| {
         let (eng, codec, k, r, perms) = &specs[i];
         let data = if (k + r) % 2 == 0 { "dense:64" } else { "dense:66" };
